@@ -21,7 +21,8 @@ META = {
              'orders (sampled in quick, complete in thorough); random graphs with 4-40 nodes (cycles, diamonds, gated '
              'parents feeding and-nodes) x 6 sampled orders; graphs generated from random (language, model) pairs and '
              'coreLang x 3 orders of the assets; non-trivial = graph has an edge from a non-viable or unnecessary '
-             'own-status node or a gated node; distinct = digest(description)'),
+             'own-status node or a gated node; distinct = digest(description)'
+             '; added strata: chains of 205-450 steps, attackers holding steps before the analysis, model edited / statuses set on nodes between generation and analysis, labels must be bool'),
     'assumptions': ['reference fixed point in mtv/agraph.py', 'own-status labelling of defense / exist / notExist as documented by the analyzer'],
     'shards': {'quick': 8, 'thorough': 16},
     'quotas_fixed': ['exhaustive-2-node-graph-orders'],
